@@ -342,7 +342,8 @@ func (w *Where) Transform() Query {
 		return NewWhere(q, e, w.t).Transform()
 	case *Summarize:
 		// split where before & after summarize
-		cols1 := q.source.Columns()
+		// a summarize output column can have the same name as a source column
+		cols1 := set.Difference(q.source.Columns(), q.cols)
 		var before, after []ast.Expr
 		for _, e := range w.expr.Exprs {
 			if set.HasSubset(cols1, e.Columns()) {
